@@ -13,8 +13,36 @@ def oracles_():
     return [comps_ctx.CtxRestore(), comps_ctx.CtxModelInv()]
 
 
+TRUSTED = [
+    "impl/t_ctx.c generates the YANG text of the abstract modules (imports, features with if-feature, one node per fault kind) "
+    "and serves it through ly_ctx_set_module_imp_clb; the compiled schema is observed as the list of feature-dependent leaves",
+]
+
+ASSUMPTIONS = [
+    "context created with LY_CTX_NO_YANGLIBRARY | LY_CTX_DISABLE_SEARCHDIRS (+ LY_CTX_EXPLICIT_COMPILE), import callback set before "
+    "the first module is loaded; no submodules, augments, deviations, cross-module leafref/when/must (no implicit implementing), "
+    "acyclic imports; every module has a data node (never a single-module dep set)",
+]
+
 MANIFEST = {
-    "text": "placeholder",
-    "note": "placeholder",
-    "technique": "Coq proof over hand-written model + differential correspondence (extracted OCaml vs C) + property oracle",
+    "text": "Coq (Properties_C09_ctx.v, model Context.v = lys_parse_in / lys_parse_load / _lys_set_implemented / lys_implement / "
+            "lys_unres_dep_sets_create / lys_compile_depset_all / lys_unres_glob_revert transcribed update by update): the full "
+            "statement failed_op_restores is REFUTED (C09_failed_op_restores_refuted; the library shows the same: 7 known findings). "
+            "Proved: C09_failed_op_restores_partial - from a quiescent state (executable: nothing pending, implemented = compiled "
+            "against the current features) a failing parse / load / implement / compile that keeps the latest-revision bit and the "
+            "feature bits of the existing modules (two executable conditions on the state at the cleanup jump) leaves obs (modules, "
+            "revisions, implemented, feature values, compiled schema, get_module_latest/implemented answers, hashed fields) unchanged, "
+            "for every failing stage and both compile modes; C09_side_conditions_necessary (each of the three conditions alone is "
+            "violated by a reachable witness that is not restored); unconditional corollaries for a syntax error and for "
+            "lys_set_implemented(m, NULL); ly_ctx_compile of a quiescent context cannot fail; parse-stage failures compile nothing "
+            "(data trees stay valid) while data_trees_still_valid and later_load_unaffected are refuted by witnesses "
+            "(revert recompiles; LYS_MOD_IMPORTED_REV stays); change count is monotone modulo 2^16. Tie: T2 ctxs (model and real "
+            "library print identical lines after every operation of random and systematic scripts, white-box fields included) and "
+            "the property oracle ctx-restore on the library itself (before/after observable, compiled YANG print hashes, data "
+            "trees, shadow context that only saw the successful operations).",
+    "note": "The compiled schema is abstract (which features of the module and of its imports were enabled, plus whether disabled "
+            "nodes were already removed). Not modelled: see ASSUMPTIONS. Preservation of quiescence by successful operations is "
+            "tested on the model (oracle ctx-model-inv), not proved. About 77% of the failing operations of random scripts satisfy "
+            "the three conditions of the partial theorem; the others are instances of the known findings.",
+    "technique": "Coq proof over hand-written model + differential correspondence (extracted OCaml vs C) + property oracle on the implementation",
 }
